@@ -565,7 +565,7 @@ package tchannel
 //@ ghostfield connFailSys
 //@ func (p *Peer) getConnectionRelay(callTimeout time.Duration, relayMaxConnTimeout time.Duration) (c *Connection, err error)
 //@   trusted
-//@   modifies allbut Relayer, relayItems, lazyCallReq, Frame, own, bytes, errAttempts, sysErrID, sysErrCode, sysErrMsg, lookupHit
+//@   modifies allbut Relayer, relayItems, lazyCallReq, Frame, own, bytes, errAttempts, sysErrID, sysErrCode, sysErrMsg, lookupHit, nadmit, admitted
 //@   ensures (err != nil <==> connFailed(p) == 1) && (err == nil ==> c != nil) && (connFailSys(p) == 1 <==> istype(err, SystemError))
 //@   ensures err == nil ==> c != nil && RelayerOK(c.relay) && ValidRelayMax(c.relay.maxTimeout)
 //@   effect bounded
@@ -577,7 +577,7 @@ package tchannel
 //@ func (r *Relayer) getDestination(f *lazyCallReq, call RelayCall) (conn *Connection, ok bool, err error)
 //@   nosafety
 //@   requires r.conn != nil && LCR(f) && call != nil && r.outbound != nil && r.logger != nil
-//@   modifies allbut Relayer, relayItems
+//@   modifies allbut Relayer, relayItems, nadmit, admitted
 // (lookupHit(items): the answer of the most recent relayItems.Get on that table,
 // see the relay file; the table is monitor-guarded, so "present at entry" says
 // nothing about the time of the lookup)
